@@ -65,6 +65,19 @@ func (ex *Exec) argString(v Value) string {
 	return s
 }
 
+// randU64 is a deterministic pseudo-random value for an input name under the run's seed.
+func (ex *Exec) randU64(name string) uint64 {
+	h := uint64(1469598103934665603) ^ ex.randSeed
+	for i := 0; i < len(name); i++ {
+		h ^= uint64(name[i])
+		h *= 1099511628211
+	}
+	h ^= h >> 29
+	h *= 0xbf58476d1ce4e5b9
+	h ^= h >> 32
+	return h
+}
+
 func (ex *Exec) inputName(base string) string {
 	ex.fresh["in:"+base]++
 	if n := ex.fresh["in:"+base]; n > 1 {
@@ -76,6 +89,31 @@ func (ex *Exec) inputName(base string) string {
 func (ex *Exec) newInput(base string, w int) *Term {
 	name := ex.inputName(base)
 	if ex.concrete != nil {
+		if _, have := ex.concrete[name]; !have && ex.randSeed != 0 {
+			// differential mode: the missing input is drawn pseudo-randomly and recorded
+			r := ex.randU64(name)
+			switch {
+			case w == 0:
+				r &= 1
+			case w < 64:
+				// favour small values and boundaries as well as arbitrary ones
+				switch r >> 61 {
+				case 0:
+					r = (r >> 8) & 0xf
+				case 1:
+					r = (uint64(1) << uint(w)) - 1 - ((r >> 8) & 3)
+				}
+				r &= (uint64(1) << uint(w)) - 1
+			default:
+				switch r >> 61 {
+				case 0:
+					r = (r >> 8) & 0xff
+				case 1:
+					r = (r >> 8) & 0xffff
+				}
+			}
+			ex.concrete[name] = strconv.FormatUint(r, 10)
+		}
 		v, _ := strconv.ParseUint(ex.concrete[name], 10, 64)
 		if w == 0 {
 			return Bool(v != 0)
@@ -118,6 +156,12 @@ func init() {
 				panic(unsupported("concrete mode: vfBytes with symbolic length"))
 			}
 			data := make([]byte, nc)
+			if _, have := ex.concrete[name]; !have && ex.randSeed != 0 {
+				for i := range data {
+					data[i] = byte(ex.randU64(fmt.Sprintf("%s[%d]", name, i)))
+				}
+				ex.concrete[name] = fmt.Sprintf("len=%d hex=%s", nc, hex.EncodeToString(data))
+			}
 			if v := ex.concrete[name]; v != "" {
 				if i := strings.Index(v, "hex="); i >= 0 {
 					raw, _ := hex.DecodeString(v[i+4:])
@@ -165,6 +209,12 @@ func init() {
 	}
 	suffixStubs["vfObserve"] = func(ex *Exec, fn *ssa.Function, args []Value) Value {
 		label := ex.argString(args[0])
+		if t, ok := args[1].(*Term); ok {
+			if c, isC := t.ConstVal(); isC {
+				ex.Observed = append(ex.Observed, fmt.Sprintf("%s=%d", label, c))
+				return nil
+			}
+		}
 		ex.Observed = append(ex.Observed, label+"="+ex.describe(args[1]))
 		return nil
 	}
